@@ -94,14 +94,21 @@ def run_case(ds, kind, rnd, uniq, evs_spec, exhaustive, limits):
         w = {"hs": hs, "s": ws_t if hs else 0, "he": he, "e": ((we - base) // MS) if he else 0}
         lims = limits if exhaustive else [rnd.choice(limits)]
         for lim in lims:
-            res = b.get(lim, ws, we)
+            try:
+                res = b.get(lim, ws, we)
+            except Exception as e:       # a read of an existing bucket never raises on the unchanged code
+                tr.append({"op": "raised", "fn": "get", "lim": lim, "w": w, "exc": type(e).__name__})
+                continue
             rr = []
             for e in res:
                 rr.append({"id": e.id if isinstance(e.id, int) else -2, "ts": tick(e.timestamp), "dur": durt(e.duration),
                            "d": "d%s" % e.data.get("i", "?")})
             tr.append({"op": "get", "lim": lim, "w": w, "res": rr})
         if exhaustive or rnd.random() < 0.4:
-            tr.append({"op": "count", "w": w, "n": b.get_eventcount(ws, we)})
+            try:
+                tr.append({"op": "count", "w": w, "n": b.get_eventcount(ws, we)})
+            except Exception as e:
+                tr.append({"op": "raised", "fn": "count", "lim": 0, "w": w, "exc": type(e).__name__})
     ds.delete_bucket("c03-%s" % uniq)
     return {"backend": kind, "base": base.isoformat(), "contents": evs_spec, "trace": tr}
 
